@@ -321,7 +321,12 @@ class V2:
     def detach(self, name):
         self.app.detach_handler(name)
 
-    def express(self, name, **kw):
+    def express(self, name, slow_validator=None, **kw):
+        if slow_validator is not None:
+            async def slow(n, sig, ctx):
+                await asyncio.sleep(slow_validator)
+                return await _v2_pass(n, sig, ctx)
+            return self.app.express(name, slow, **kw)
         return self.app.express(name, _v2_pass, **kw)
 
     @staticmethod
@@ -354,7 +359,12 @@ class V1:
     def detach(self, name):
         self.app.unset_interest_filter(name)
 
-    def express(self, name, **kw):
+    def express(self, name, slow_validator=None, **kw):
+        if slow_validator is not None:
+            async def slow(n, sig):
+                await asyncio.sleep(slow_validator)
+                return await _v1_pass(n, sig)
+            return self.app.express_interest(name, validator=slow, need_raw_packet=True, **kw)
         return self.app.express_interest(name, validator=_v1_pass, need_raw_packet=True, **kw)
 
     @staticmethod
